@@ -207,7 +207,9 @@ class Real:
         app.route('/c15/set', 'GET', h_set, overwrite=True)
         app.route('/c15/get', 'GET', h_get, overwrite=True)
         app.route('/c15/req', 'GET', h_req, overwrite=True)
-        code = [c for c in self.ch.cookie_decode.__code__.co_consts
+        import inspect
+        fn = inspect.unwrap(self.ch.cookie_decode)       # a decorated (memoised ...) decoder still has its source function
+        code = [c for c in getattr(getattr(fn, '__code__', None), 'co_consts', ())
                 if isinstance(c, types.CodeType) and c.co_name == '_lscmp']
         self.lscmp = types.FunctionType(code[0], {'__builtins__': __builtins__}) if code else None
 
@@ -769,6 +771,48 @@ class C15(Check):
                                     inp))
         return bad, n
 
+    @staticmethod
+    def _mutate(v):
+        """changes a mutable container in place the way a handler would; returns False when v is immutable"""
+        if isinstance(v, list):
+            v.append('added-by-handler')
+        elif isinstance(v, dict):
+            v['added-by-handler'] = 1
+            for x in v.values():
+                if isinstance(x, list):
+                    x.clear()
+        elif isinstance(v, set):
+            v.add('added-by-handler')
+        elif isinstance(v, bytearray):
+            v.extend(b'!')
+        else:
+            return False
+        return True
+
+    def _oracle_mutated_value(self, real, name, value, secret):
+        """the value one request reads belongs to that request: a handler that edits the object it got from
+        get_cookie must not change what a LATER request carrying the same cookie bytes reads (round trip: the value
+        read back is the value that was set, every time)"""
+        import copy as _copy
+        outs, setc = real.set_cookies([(name, _copy.deepcopy(value), secret, {})])
+        if outs != ['ok']:
+            return [], 0
+        header = client_header(setc)
+        bad = []
+        reads = 0
+        for round_ in range(3):
+            res, _calls = real.get_cookie(header, name, secret)
+            reads += 1
+            if res[0] != 'ok' or res[1] != value or type(res[1]) is not type(value):
+                bad.append(('C15:signed-cookie:value-shared-across-requests',
+                            f'cookie {name!r} set to {value!r:.60}; read number {round_ + 1} of the same cookie bytes (after an earlier '
+                            f'handler edited the object it had been given) gave {res!r:.80}',
+                            dict(kind='mutated', name=name, value=repr(value), secret=repr(secret))))
+                break
+            if not self._mutate(res[1]):
+                break
+        return bad, reads
+
     def _oracle_tamper(self, real, name, value, secret, all_positions, rng):
         bad = []
         outs, setc = real.set_cookies([(name, value, secret, {})])
@@ -882,6 +926,17 @@ class C15(Check):
                 evals += k
                 for key, what, inp in bad:
                     findings.append(Finding(key, what, inp))
+            # a handler edits the object it was given: later requests with the same cookie still read what was set
+            for o in OBJS:
+                if isinstance(o, (list, dict, set, bytearray)):
+                    for secret in rng.sample(SECRETS, 2):
+                        try:
+                            bad, k = self._oracle_mutated_value(real, rng.choice(NAMES_OK), o, secret)
+                        except Exception as e:    # noqa
+                            bad, k = [('C15:oracle-exception', f'{type(e).__name__}: {e}', {})], 1
+                        evals += k
+                        for key, what, inp in bad:
+                            findings.append(Finding(key, what, inp))
             # tampering
             for i in range(max(3, n // 6)):
                 name = rng.choice(NAMES_OK)
@@ -912,6 +967,11 @@ class C15(Check):
                             oracle=[(k, w) for k, w, _ in self._oracle_reread(
                                 real, random.Random(0), a, (i['b'][0], _lit(i['b'][1]), _lit(i['b'][2])))[0]][:5])
             name, value, secret = i['name'], _lit(i['value']), _lit(i['secret'])
+            if i['kind'] == 'mutated':
+                bad, k = self._oracle_mutated_value(real, name, value, secret)
+                return dict(input=i, reads=k, oracle=[(a, b) for a, b, _ in bad],
+                            expected='every read of the same signed cookie bytes gives the value that was set, whatever earlier '
+                                     'handlers did to the objects they had been given')
             if i['kind'] == 'roundtrip':
                 path = i.get('path', 'direct')
                 job = [(name, value, secret, i.get('opts') or {})]
